@@ -96,7 +96,12 @@ struct C15 : Prop {
 			size_t k = r.below(ns.size());
 			if (ns[k].addr.empty()) { continue; }
 			J e = J::obj(); e.set("at_us", (int) r.range(0, 3000)); e.set("node", pc::jaddr(ns[k].addr));
-			if (ns[k].present) { e.set("topo", "lost"); ns[k].present = false; }
+			bool lost_notice_lost = false;
+			if (ns[k].present) {
+				e.set("topo", "lost"); ns[k].present = false;
+				// the MSG_NODE_LOST itself is lost on the bus (CRC error): the host still believes the board connected when it logs in again, possibly elsewhere
+				if (r.chance(150)) { J fs = J::arr(); J f = J::obj(); f.set("kind", "lose"); fs.push(f); e.set("faults", fs); lost_notice_lost = true; }
+			}
 			else {
 				e.set("topo", "new");
 				if (r.chance(400)) {
@@ -112,7 +117,7 @@ struct C15 : Prop {
 				ns[k].present = true;
 			}
 			// the interface repeats a notice whose acknowledgement it missed (same or next sequence number): must change nothing
-			if (r.chance(250)) { J fs = J::arr(); J f = J::obj(); f.set("kind", "dup"); f.set("a", (int) r.below(2)); fs.push(f); e.set("faults", fs); }
+			if (!lost_notice_lost && r.chance(250)) { J fs = J::arr(); J f = J::obj(); f.set("kind", "dup"); f.set("a", (int) r.below(2)); fs.push(f); e.set("faults", fs); }
 			ev.push(e);
 			ph.set("bus", ev); ph.set("check", true);
 			// commands to every board afterwards
